@@ -23,6 +23,8 @@ CONSTRUCTS = {
  'let_let': "let\n  a = 1;\nin\nlet\n  b = 2;\nin\na", 'let_let_let': "let\n  a = 1;\nin\nlet\n  b = 2;\nin\nlet\n  c = 3;\nin\n{\n  d = a;\n}",
  'let_empty': "let in x", 'let_empty_set': "let\nin\n{\n  a = 1;\n}", 'mixed_attrpath': "{\n  a.b = 1;\n  a = {\n    c = 2;\n  };\n}",
  'mixed_attrpath_rev': "{\n  a = {\n    c = 2;\n  };\n  a.b = 1;\n}", 'dup_sets': "{\n  a = {\n    b = 1;\n  };\n  a = {\n    c = 2;\n  };\n}",
+ 'empty_list': "[ ]", 'empty_set': "{ }", 'empty_rec_set': "rec { }", 'empty_list_call': "f [ ] { }",
+ 'attrpath_quoted': "{\n  \"a\".b.\"c d\".e = 1;\n}", 'attrpath_interp': "{\n  ${x}.b.\"${y}\".c = 1;\n}",
  'dup_attrpath_sets': "{\n  a.b = {\n    x = 1;\n  };\n  a.b = {\n    y = 2;\n  };\n}", 'dup_attrpath_sets_apart': "{\n  s.n = {\n    e = true;\n  };\n  z = 1;\n  s.n = {\n    u = 2;\n  };\n}",
  'dup_attrpath_inherit': "{\n  a.b = {\n    inherit x;\n  };\n  a.b = {\n    inherit y;\n  };\n}", 'dup_attrpath_deep': "{\n  a.b.c = {\n    x = 1;\n  };\n  a.b.c = {\n    y = 2;\n  };\n  a.b.d = 3;\n}",
  'attrpath_deeper_mixed': "{\n  a.b.c = 1;\n  a.b = {\n    d = 2;\n  };\n}", 'empty_formals': "{ }: x", 'empty_formals_at': "{ }@args: x", 'formals_ellipsis_only': "{ ... }: x",
@@ -44,7 +46,7 @@ CONTEXTS = {'lambda_body': lambda e: 'x:\n' + e, 'top': lambda e: e, 'lead_ws': 
             'bindval': lambda e: "{\n  v = " + e.replace("\n", "\n  ") + ";\n}", 'listitem': lambda e: "[\n  " + e.replace("\n", "\n  ") + "\n]",
             # seventh round: multi-byte characters before the construct (a reader that mixes byte offsets and character indices reads every later gap shifted)
             'utf8_lead': lambda e: "{\n  s = \"€😀é\";\n  v = " + e.replace("\n", "\n  ") + ";\n}"}
-NOT_LIST_ITEMS = ('import', 'import_call', 'import_nl', 'import_paren', 'let_let', 'let_let_let', 'let_empty', 'let_empty_set', 'empty_formals', 'empty_formals_at', 'formals_ellipsis_only', 'with_list', 'with_set', 'with_istr', 'with_paren', 'with_call', 'with_multi_list', 'assert_list', 'assert_set', 'lambda_list', 'lambda_set', 'lambda_formals_set', 'let_set', 'let_list', 'if_set', 'call_list', 'call_istr', 'concat_list', 'update_set', 'formal_default_list', 'formal_default_multi', 'not_paren', 'inherit_in_let', 'if_multi', 'if_chain', 'with_multi', 'assert_multi', 'lambda_nl', 'call_multi', 'binary_multi', 'call', 'with', 'assert', 'if', 'lambda_id', 'lambda_formals', 'lambda_formals_multi', 'lambda_at', 'lambda_at_pre', 'let', 'binary', 'chain', 'update', 'has_attr', 'not', 'neg', 'select_or', 'call_set')
+NOT_LIST_ITEMS = ('empty_list_call', 'import', 'import_call', 'import_nl', 'import_paren', 'let_let', 'let_let_let', 'let_empty', 'let_empty_set', 'empty_formals', 'empty_formals_at', 'formals_ellipsis_only', 'with_list', 'with_set', 'with_istr', 'with_paren', 'with_call', 'with_multi_list', 'assert_list', 'assert_set', 'lambda_list', 'lambda_set', 'lambda_formals_set', 'let_set', 'let_list', 'if_set', 'call_list', 'call_istr', 'concat_list', 'update_set', 'formal_default_list', 'formal_default_multi', 'not_paren', 'inherit_in_let', 'if_multi', 'if_chain', 'with_multi', 'assert_multi', 'lambda_nl', 'call_multi', 'binary_multi', 'call', 'with', 'assert', 'if', 'lambda_id', 'lambda_formals', 'lambda_formals_multi', 'lambda_at', 'lambda_at_pre', 'let', 'binary', 'chain', 'update', 'has_attr', 'not', 'neg', 'select_or', 'call_set')
 # ---- nesting family: every sequence of up to three wrappers around a leaf, each wrapper with names of its own depth ----
 WRAP = {
  'let': lambda i, e: 'let\n  v%d = %d;\nin\n%s' % (i, i, e), 'lam': lambda i, e: 'x%d: %s' % (i, e), 'formals': lambda i, e: '{ p%d }: %s' % (i, e),
